@@ -20,6 +20,7 @@ package main
 
 import (
 	"fmt"
+	"os"
 	"sort"
 	"strings"
 
@@ -33,6 +34,7 @@ import (
 	"github.com/elastos/Elastos.ELA/core/types/interfaces"
 	"github.com/elastos/Elastos.ELA/core/types/outputpayload"
 	"github.com/elastos/Elastos.ELA/core/types/payload"
+	"github.com/elastos/Elastos.ELA/crypto"
 	elaerr "github.com/elastos/Elastos.ELA/errors"
 	"github.com/elastos/Elastos.ELA/mempool"
 
@@ -57,7 +59,7 @@ const sharedSeed = 0xC8
 
 var fieldNames = []string{"input", "owner", "node", "nick", "crpub", "cid", "crnick", "cmdid", "progcode", "draft", "propdid", "customid",
 	"target", "scname", "scmagic", "scgenesis", "prophash", "trackhash", "revdid", "revhash", "rwhash", "crwhash", "stake", "claim",
-	"nftref", "nftstake", "nftdestroy", "schash", "rdhash", "special"}
+	"nftref", "nftstake", "nftdestroy", "schash", "rdhash", "special", "mscode"}
 
 func defaultSeeds(variant int) map[string]byte {
 	m := map[string]byte{}
@@ -73,6 +75,10 @@ var (
 	cp = func(f ...string) member { return member{"CancelProducer", ctypes.CancelProducer, f} }
 	ap = func(f ...string) member { return member{"ActivateProducer", ctypes.ActivateProducer, f} }
 	rc = func(f ...string) member { return member{"RegisterCR", ctypes.RegisterCR, f} }
+	// code / payload forms of RegisterCR (strRegisterCRPublicKey branches on them)
+	rcD = func(f ...string) member { return member{"RegisterCR{did}", ctypes.RegisterCR, f} }
+	rcS = func(f ...string) member { return member{"RegisterCR{schnorr}", ctypes.RegisterCR, f} }
+	rcM = func(f ...string) member { return member{"RegisterCR{multisig}", ctypes.RegisterCR, f} }
 	uc = func(f ...string) member { return member{"UpdateCR", ctypes.UpdateCR, f} }
 	xc = func(f ...string) member { return member{"UnregisterCR", ctypes.UnregisterCR, f} }
 	cn = func(f ...string) member { return member{"CRCouncilMemberClaimNode", ctypes.CRCouncilMemberClaimNode, f} }
@@ -81,17 +87,20 @@ var (
 
 // classTable: one class per conflict slot of the statement's "unique resources".
 var classTable = []classDef{
-	{slot: "DPoSOwnerPublicKey", members: []member{rp("owner"), up("owner"), cp("owner"), rc("crpub")}},
+	{slot: "DPoSOwnerPublicKey", members: []member{rp("owner"), up("owner"), cp("owner"), rc("crpub"), rcD("crpub"), rcS("crpub")}},
+	// a multi-signature CR is identified by its code, which no single-key form can equal
+	{slot: "DPoSOwnerPublicKey", members: []member{rcM("mscode")}},
+	{slot: "DPoSNodePublicKey", members: []member{rcM("mscode")}},
 	{slot: "DPoSActivateCancel", members: []member{cp("owner"), ap("node")}},
-	{slot: "DPoSNodePublicKey", members: []member{rp("node"), up("node"), ap("node"), rc("crpub"), cn("node")}},
+	{slot: "DPoSNodePublicKey", members: []member{rp("node"), up("node"), ap("node"), rc("crpub"), rcD("crpub"), rcS("crpub"), cn("node")}},
 	{slot: "DPoSOwnerNodePublicKeys", members: []member{
 		{"RegisterProducer[owner]", ctypes.RegisterProducer, []string{"owner"}}, {"RegisterProducer[node]", ctypes.RegisterProducer, []string{"node"}},
 		{"UpdateProducer[owner]", ctypes.UpdateProducer, []string{"owner"}}, {"UpdateProducer[node]", ctypes.UpdateProducer, []string{"node"}}}},
 	{slot: "CRCouncilMemberNodePublicKey", members: []member{cn("node")}},
 	{slot: "CRCouncilMemberDID", members: []member{cn("cmdid")}},
 	{slot: "DPoSNickname", members: []member{rp("nick"), up("nick")}},
-	{slot: "CrDID", members: []member{rc("cid"), uc("cid"), xc("cid")}},
-	{slot: "CrNickname", members: []member{rc("crnick"), uc("crnick")}},
+	{slot: "CrDID", members: []member{rc("cid"), rcS("cid"), rcM("cid"), uc("cid"), xc("cid")}},
+	{slot: "CrNickname", members: []member{rc("crnick"), rcS("crnick"), uc("crnick")}},
 	{slot: "ProgramCode", members: []member{{"ReturnDepositCoin", ctypes.ReturnDepositCoin, []string{"progcode"}}, {"ReturnCRDepositCoin", ctypes.ReturnCRDepositCoin, []string{"progcode"}}}},
 	{slot: "ChangeCustomIDFee", members: []member{pr("ChangeCustomIDFee")}},
 	{slot: "ReserveCustomID", members: []member{pr("ReserveCustomID")}},
@@ -111,8 +120,8 @@ var classTable = []classDef{
 	{slot: "CRCProposalRealWithdrawKey", members: []member{{"CRCProposalRealWithdraw", ctypes.CRCProposalRealWithdraw, []string{"rwhash"}}}},
 	{slot: "DposV2ClaimRewardRealWithdrawKey", members: []member{{"DposV2ClaimRewardRealWithdraw", ctypes.DposV2ClaimRewardRealWithdraw, []string{"crwhash"}}}},
 	{slot: "ExchangeVotes", members: []member{{"ExchangeVotes", ctypes.ExchangeVotes, []string{"stake"}}, {"Voting", ctypes.Voting, []string{"stake"}},
-		{"ReturnVotes", ctypes.ReturnVotes, []string{"stake"}}, {"CreateNFT", ctypes.CreateNFT, []string{"stake"}}}},
-	{slot: "DposV2ClaimReward", members: []member{{"DposV2ClaimReward", ctypes.DposV2ClaimReward, []string{"claim"}}}},
+		{"ReturnVotes", ctypes.ReturnVotes, []string{"stake"}}, {"ReturnVotes{v1}", ctypes.ReturnVotes, []string{"stake"}}, {"CreateNFT", ctypes.CreateNFT, []string{"stake"}}}},
+	{slot: "DposV2ClaimReward", members: []member{{"DposV2ClaimReward", ctypes.DposV2ClaimReward, []string{"claim"}}, {"DposV2ClaimReward{v1}", ctypes.DposV2ClaimReward, []string{"claim"}}}},
 	{slot: "VotesRealWithdraw", members: []member{{"VotesRealWithdraw", ctypes.VotesRealWithdraw, nil}}},
 	{slot: "RevertToDPOSHash", members: []member{{"RevertToDPOS", ctypes.RevertToDPOS, nil}}},
 	{slot: "SpecialTxHash", sameKindOnly: true, members: []member{
@@ -120,7 +129,8 @@ var classTable = []classDef{
 		{"IllegalBlockEvidence", ctypes.IllegalBlockEvidence, []string{"special"}}, {"IllegalSidechainEvidence", ctypes.IllegalSidechainEvidence, []string{"special"}},
 		{"InactiveArbitrators", ctypes.InactiveArbitrators, []string{"special"}}, {"NextTurnDPOSInfo", ctypes.NextTurnDPOSInfo, []string{"special"}}}},
 	{slot: "CustomIDProposalResult", members: []member{{"ProposalResult", ctypes.ProposalResult, nil}}},
-	{slot: "SidechainTxHashes", members: []member{{"WithdrawFromSideChain", ctypes.WithdrawFromSideChain, []string{"schash"}}}},
+	{slot: "SidechainTxHashes", members: []member{{"WithdrawFromSideChain", ctypes.WithdrawFromSideChain, []string{"schash"}},
+		{"WithdrawFromSideChain{v1}", ctypes.WithdrawFromSideChain, []string{"schash"}}, {"WithdrawFromSideChain{v2}", ctypes.WithdrawFromSideChain, []string{"schash"}}}},
 	{slot: "SidechainReturnDepositTxHashes", members: []member{{"ReturnSideChainDepositCoin", ctypes.ReturnSideChainDepositCoin, []string{"rdhash"}}}},
 	{slot: "NFTDestroyFromSideChainHash", members: []member{{"NFTDestroyFromSideChain", ctypes.NFTDestroyFromSideChain, []string{"nftdestroy"}}}},
 	{slot: "TxInputsReferKeys", members: []member{{"TransferAsset", ctypes.TransferAsset, []string{"input"}}, rp("input"), {"WithdrawFromSideChain", ctypes.WithdrawFromSideChain, []string{"input"}}}},
@@ -138,6 +148,34 @@ var fund2 interfaces.Transaction // funding transaction of the pair stage
 
 func stakeCode(seed byte) []byte { return stdCode(pub(seed)) }
 
+func schnorrCode(seed byte) []byte {
+	pk, err := crypto.DecodePoint(pub(seed))
+	if err != nil {
+		evid.Fatalf("decode point: %v", err)
+	}
+	c, err := contract.CreateSchnorrRedeemScript(pk)
+	if err != nil || !contract.IsSchnorr(c) {
+		evid.Fatalf("schnorr code: %v", err)
+	}
+	return c
+}
+
+func multisigCode(seed byte) []byte {
+	var pks []*crypto.PublicKey
+	for i := byte(0); i < 3; i++ {
+		pk, err := crypto.DecodePoint(pub(seed ^ (i << 6) ^ 0x05))
+		if err != nil {
+			evid.Fatalf("decode point: %v", err)
+		}
+		pks = append(pks, pk)
+	}
+	c, err := contract.CreateMultiSigRedeemScript(2, pks)
+	if err != nil {
+		evid.Fatalf("multisig code: %v", err)
+	}
+	return c
+}
+
 func stakeHash(seed byte) common.Uint168 {
 	ct, err := contract.CreateStakeContractByCode(stakeCode(seed))
 	if err != nil {
@@ -150,6 +188,13 @@ func stakeHash(seed byte) common.Uint168 {
 func buildPairTx(kind string, s map[string]byte, nonce string) interfaces.Transaction {
 	base, ptype, _ := strings.Cut(kind, "/")
 	if i := strings.IndexByte(base, '['); i >= 0 {
+		base = base[:i]
+	}
+	// {form}: the code / payload-version form of the transaction (the key functions of
+	// conflictfunc.go branch on it)
+	form := ""
+	if i := strings.IndexByte(base, '{'); i >= 0 {
+		form = strings.TrimSuffix(base[i+1:], "}")
 		base = base[:i]
 	}
 	var ins []*ctypes.Input
@@ -174,7 +219,22 @@ func buildPairTx(kind string, s map[string]byte, nonce string) interfaces.Transa
 		t, p = ctypes.ActivateProducer, &payload.ActivateProducer{NodePublicKey: pub(s["node"]), Signature: []byte{1}}
 		withInput = false
 	case "RegisterCR":
-		t, p = ctypes.RegisterCR, &payload.CRInfo{Code: stdCode(pub(s["crpub"])), CID: h168(s["cid"]), DID: h168(s["cid"] ^ 0xff), NickName: fmt.Sprintf("cr-%02x", s["crnick"]), Url: "http://example.org", Location: 1, Signature: []byte{1}}
+		info := &payload.CRInfo{Code: stdCode(pub(s["crpub"])), CID: h168(s["cid"]), DID: h168(s["cid"] ^ 0xff), NickName: fmt.Sprintf("cr-%02x", s["crnick"]), Url: "http://example.org", Location: 1, Signature: []byte{1}}
+		t, p = ctypes.RegisterCR, info
+		switch form {
+		case "":
+		case "did":
+			pv = payload.CRInfoDIDVersion
+		case "schnorr":
+			// as on the wire: the payload carries no code, the program does
+			pv, info.Code = payload.CRInfoSchnorrVersion, []byte{}
+			programs = []*pg.Program{{Code: schnorrCode(s["crpub"]), Parameter: []byte{1}}}
+		case "multisig":
+			pv, info.Code = payload.CRInfoMultiSignVersion, []byte{}
+			programs = []*pg.Program{{Code: multisigCode(s["mscode"]), Parameter: []byte{1}}}
+		default:
+			evid.Fatalf("RegisterCR form %q", form)
+		}
 	case "UpdateCR":
 		t, p = ctypes.UpdateCR, &payload.CRInfo{Code: stdCode(pub(s["crpub"])), CID: h168(s["cid"]), DID: h168(s["cid"] ^ 0xff), NickName: fmt.Sprintf("cr-%02x", s["crnick"]), Url: "http://example.org", Location: 1, Signature: []byte{1}}
 	case "UnregisterCR":
@@ -245,14 +305,22 @@ func buildPairTx(kind string, s map[string]byte, nonce string) interfaces.Transa
 		t, p = ctypes.Voting, &payload.Voting{}
 		programs = []*pg.Program{{Code: stakeCode(s["stake"]), Parameter: []byte{1}}}
 	case "ReturnVotes":
-		t, pv, p = ctypes.ReturnVotes, payload.ReturnVotesVersionV0, &payload.ReturnVotes{ToAddr: h168(0x7a), Code: stakeCode(s["stake"]), Value: 100, Signature: []byte{1}}
+		rv := &payload.ReturnVotes{ToAddr: h168(0x7a), Code: stakeCode(s["stake"]), Value: 100, Signature: []byte{1}}
+		t, pv, p = ctypes.ReturnVotes, payload.ReturnVotesVersionV0, rv
 		programs = []*pg.Program{{Code: stakeCode(s["stake"]), Parameter: []byte{1}}}
+		if form == "v1" { // the code is only in the program
+			pv, rv.Code, rv.Signature = payload.ReturnVotesVersionV0+1, nil, nil
+		}
 	case "CreateNFT":
 		t, p = ctypes.CreateNFT, &payload.CreateNFT{ReferKey: h256(s["nftref"]), StakeAddress: fmt.Sprintf("Sstake%02x", s["nftstake"]), GenesisBlockHash: h256(4)}
 		programs = []*pg.Program{{Code: stakeCode(s["stake"]), Parameter: []byte{1}}}
 	case "DposV2ClaimReward":
-		t, pv, p = ctypes.DposV2ClaimReward, payload.DposV2ClaimRewardVersionV0, &payload.DPoSV2ClaimReward{ToAddr: h168(0x7b), Code: stakeCode(s["claim"]), Value: 100, Signature: []byte{1}}
+		cr := &payload.DPoSV2ClaimReward{ToAddr: h168(0x7b), Code: stakeCode(s["claim"]), Value: 100, Signature: []byte{1}}
+		t, pv, p = ctypes.DposV2ClaimReward, payload.DposV2ClaimRewardVersionV0, cr
 		programs = []*pg.Program{{Code: stakeCode(s["claim"]), Parameter: []byte{1}}}
+		if form == "v1" {
+			pv, cr.Code, cr.Signature = payload.DposV2ClaimRewardVersionV1, nil, nil
+		}
 	case "VotesRealWithdraw":
 		t, p = ctypes.VotesRealWithdraw, &payload.VotesRealWithdrawPayload{VotesRealWithdraw: []payload.VotesRealWidhdraw{{ReturnVotesTXHash: h256(s["draft"]), StakeAddress: h168(0x7c), Value: 10}}}
 		withInput = false
@@ -295,6 +363,19 @@ func buildPairTx(kind string, s map[string]byte, nonce string) interfaces.Transa
 	case "WithdrawFromSideChain":
 		t, pv, p = ctypes.WithdrawFromSideChain, payload.WithdrawFromSideChainVersion, &payload.WithdrawFromSideChain{BlockHeight: 100, GenesisBlockAddress: "eb7adb1fea0dd6185b09a43bdcd4924bb22bff7151f0b1b4e08699840ab1384b",
 			SideChainTransactionHashes: []common.Uint256{h256(s["schash"]), h256(s["schash"] ^ s["draft"])}}
+		if form == "v1" || form == "v2" {
+			// as on the wire: the side-chain hashes travel in the outputs, the payload has
+			// none (v1) / only the signer indexes (v2, Schnorr)
+			pv, p = payload.WithdrawFromSideChainVersionV1, &payload.WithdrawFromSideChain{}
+			if form == "v2" {
+				pv, p = payload.WithdrawFromSideChainVersionV2, &payload.WithdrawFromSideChain{Signers: []uint8{0, 1}}
+			}
+			outs = nil
+			for i, h := range []common.Uint256{h256(s["schash"]), h256(s["schash"] ^ s["draft"])} {
+				outs = append(outs, &ctypes.Output{Value: 1000, ProgramHash: h168(byte(0x60 + i)), Type: ctypes.OTWithdrawFromSideChain,
+					Payload: &outputpayload.Withdraw{Version: 0, GenesisBlockAddress: "XKUh4GLhFJiqAMTF6HyWQrV9pK9HcGUdfJ", SideChainTransactionHash: h, TargetData: []byte{1}}})
+			}
+		}
 	case "ReturnSideChainDepositCoin":
 		t, p = ctypes.ReturnSideChainDepositCoin, &payload.ReturnSideChainDepositCoin{}
 		outs = []*ctypes.Output{{Value: 1000, ProgramHash: h168(0x60), Type: ctypes.OTReturnSideChainDepositCoin,
@@ -331,6 +412,7 @@ func (w *ptx) ContextCheck(interfaces.Parameters) (map[*ctypes.Input]ctypes.Outp
 
 type pairStats struct {
 	classes, pairs, histories, ops  int
+	skippedHistories               int
 	rejectedSecond, admittedSecond int
 	notConstructible                []string
 }
@@ -435,6 +517,9 @@ func runPairStage(r *evid.Run) *pairStats {
 			fatal("conflict table coverage gap: slot %s is registered for transaction type %s (0x%02x) but the check's class table has no colliding pair for it — extend classTable in engine/checks/c34/pairs.go", p.Slot, ctypes.TxType(p.Type).Name(), p.Type)
 		}
 	}
+	// a kind that owns no entry in a slot when pooled alone is reported once; its pairs in that
+	// slot are consequences of the same defect and are not run
+	broken := map[string]bool{}
 	for _, c := range classTable {
 		st.classes++
 		for ai, ma := range c.members {
@@ -446,6 +531,10 @@ func runPairStage(r *evid.Run) *pairStats {
 				st.pairs++
 				histories := [][]string{{"A"}, {"B"}, {"A", "B"}, {"A", "B", "blk"}, {"A", "blk", "B"}, {"A", "B", "A"}}
 				for hi, h := range histories {
+					if len(h) > 1 && os.Getenv("VERIF_C34_NOSKIP") == "" && (broken[c.slot+"|"+ma.kind] || broken[c.slot+"|"+mb.kind]) {
+						st.skippedHistories++
+						continue
+					}
 					a := newPtx(ma.kind, 0, ma.fields, "pairA")
 					b := newPtx(mb.kind, 1, mb.fields, "pairB")
 					if a.Hash() == b.Hash() {
@@ -492,6 +581,13 @@ func runPairStage(r *evid.Run) *pairStats {
 							}
 						}
 						if sig, what := pairInvariants(pool, c.slot, a, b, after); sig != "" {
+							if len(h) == 1 && strings.HasPrefix(sig, "C34|index-missing|") {
+								k := ma.kind
+								if h[0] == "B" {
+									k = mb.kind
+								}
+								broken[c.slot+"|"+k] = true
+							}
 							r.Violate(sig, what, map[string]interface{}{"system": "pairs", "slot": c.slot, "a": ma.kind, "b": mb.kind, "a_fields": ma.fields, "b_fields": mb.fields, "history": h[:oi+1]})
 							break
 						}
